@@ -215,6 +215,9 @@ def build_driver():
 
 
 # ------------------------------------------------------------------ rust harness
+EXCLUDED_FAMS = set()   # harness families left out because they no longer compile against the repository's current tree
+
+
 def harness_dir():
     d = os.path.join(CACHE, "harness")
     os.makedirs(d, exist_ok=True)
@@ -231,7 +234,7 @@ def harness_dir():
     for f in sorted(glob.glob(os.path.join(ROOT, "harness", "src", "*.rs"))):
         b = os.path.basename(f)
         want[b] = open(f).read()
-        if b.startswith("fam_"):
+        if b.startswith("fam_") and b[:-3] not in EXCLUDED_FAMS:
             fams.append(b[:-3])
     want["fams.rs"] = ("// GENERATED: one line per harness/src/fam_*.rs\n" + "".join("#[path = \"%s.rs\"]\npub mod %s;\n" % (f, f) for f in fams)
                        + "pub fn dispatch(kind: &str, args: &[&str]) -> Option<String> {\n"
@@ -268,10 +271,21 @@ def ensure_harness(profile):
 
 
 def build_harness(profile="release"):
-    d = harness_dir()
+    """Build the harness against the repository's current tree.  When a family file no longer compiles (a change to the
+    derive macro can make a `#[derive(JominiDeserialize)]` struct of the harness a compile error), that family is left out
+    and the build is retried, so that the other families can still search for a failing input; the caller reports the
+    exclusion as a broken tie (EXCLUDED_FAMS)."""
     env = dict(ENV, RUSTFLAGS=RUSTFLAGS, CARGO_TARGET_DIR=os.path.join(CACHE, "target"))
     cmd = ["cargo", "build", "--offline", "-q"] + (["--release"] if profile == "release" else [])
-    rc, out, dt = sh(cmd, cwd=d, env=env, timeout=1200)
+    for _attempt in range(5):
+        d = harness_dir()
+        rc, out, dt = sh(cmd, cwd=d, env=env, timeout=1200)
+        if rc == 0:
+            break
+        bad = set(re.findall(r"^error[^\n]*\n\s*--> src/(fam_\w+)\.rs", out, re.M)) - EXCLUDED_FAMS   # primary location of each error only
+        if not bad:
+            break
+        EXCLUDED_FAMS.update(bad)
     binp = os.path.join(CACHE, "target", "release" if profile == "release" else "debug", "jv_harness")
     if rc == 0 and os.path.exists(binp):
         _BUILT.add(profile)
@@ -465,6 +479,9 @@ class Ctx:
     def fail(self, key, what, cases, impl=None, expect=None):
         """A property-level failure observed on the implementation (replayable)."""
         # at most 4 recorded per class, so that a frequent (e.g. known) class cannot crowd out a new one
+        if impl and any(isinstance(i, str) and (i == "NOKIND" or i.startswith("NOKIND")) for i in impl):
+            self.count("fail_skipped_nokind")      # the kind's family was excluded from the build: not an observation of the code
+            return
         self.count("fail_" + key)
         if sum(1 for f in self.failures if f["key"] == key) < 4 and len(self.failures) < 200:
             self.failures.append({"key": key, "what": what, "cases": cases, "impl": impl, "expect": expect})
